@@ -168,7 +168,18 @@ def _ops():
     }
 
 
+def _doc_copy_same(d):
+    """copy.copy() of a document is a document with the same content: it renders the same, and appending to it does
+    not reach the original"""
+    c = copy.copy(d)
+    same = _res(c.render()) == _res(d.render()) and snap(c) == snap(d)
+    before = snap(d)
+    c.append("appended-to-the-copy")
+    return (same, snap(d) == before)
+
+
 DOC_OPS = {
+    "copy-is-the-same-document": _doc_copy_same,
     "render": lambda d: _res(d.render()),
     "render(noprefix)": lambda d: _res(d.render(lib_prefix=None, include_version=False)),
     "copy": lambda d: snap(copy.copy(d)),
@@ -222,9 +233,17 @@ OPS_QUICK = ["tagify", "render", "str", "get_html_string", "get_dependencies", "
 _BASE = {}
 
 
+class ProgrammingError(Exception):
+    pass
+
+
 def run_op(table, name, x):
     try:
         return ("ok", table[name](x))
+    except (KeyError, AttributeError, NameError, IndexError, UnboundLocalError, AssertionError, RecursionError) as e:
+        # never legitimate for a read-only operation on a well-formed object: comparing "raises the same as on a fresh
+        # object" would be blind to it
+        raise ProgrammingError(f"{name} raised {type(e).__name__}: {e}")
     except Exception as e:  # legit for e.g. get_html_string on an un-expanded object
         return ("raises", type(e).__name__, str(e)[:80])
 
@@ -265,6 +284,10 @@ def make_fn_seq(table_fn, builder, key):
             if comparable and not ((x == fresh) and (fresh == x)):
                 viols.append((f"eq-after:{name}", f"after {name} the object no longer compares equal (both ways) to an "
                               "identically built one", {"sequence": seq[:k + 1]}))
+                break
+            if name == "copy-is-the-same-document" and r != ("ok", (True, True)):
+                viols.append(("copy:document", "copy.copy(document) does not render like the original / shares its content",
+                              {"observed": r}))
                 break
             if r != _BASE[bk]:
                 viols.append((f"result-depends-on-history:{name}",
